@@ -1,11 +1,18 @@
 //! C15: PositionInsertionEvaluator::evaluate_all under rayon pools of different sizes vs. a sequential fold and every
 //! two-chunk split computed with the same real step (eval_job_insertion_in_route) and reducer (choose_best_result).
+//! Second batch (Model/Reduce2.v): the routes x jobs grid with the kind of every pair (skip / route-level violation /
+//! evaluated) and its failure fields, the real step/reducer under the schedules the model evaluates (chunks of 1, 2, 3 pairs
+//! and one chunk per route, left- and right-nested), both branches of evaluate_and_collect_all (pub(crate) in /repo: a twin
+//! built from the real step and the real rosomaxa parallel_collect, plus the real function reached through
+//! RecreateWithSkipBest and the insertion observer hook), op "choose" (choose_best_result on result pairs) and
+//! op "decompose" (real DecomposeSearch around an identity inner search under explicit pool layouts).
 use serde_json::{json, Value};
 use std::sync::Arc;
 use vh::core::*;
 use vh::util::*;
 use vrp_core::construction::heuristics::*;
 use vrp_core::models::problem::*;
+use vrp_core::rosomaxa::HeuristicSolution;
 
 static SHIFT: std::sync::atomic::AtomicI64 = std::sync::atomic::AtomicI64::new(0);
 
@@ -68,9 +75,157 @@ fn run_layouts(case: &Value) -> Value {
     json!({"layouts": out})
 }
 
+
+fn fail_of(r: &InsertionResult) -> Value {
+    match r {
+        InsertionResult::Success(_) => Value::Null,
+        InsertionResult::Failure(f) => json!([f.constraint.0, f.stopped, f.job.as_ref().map(job_id)]),
+    }
+}
+
+/// rosomaxa's public `Random`, deterministic; `weighted` always answers 0 (the first entry: BestResultSelector in
+/// ResultSelectorProvider::new_default), so that RecreateWithSkipBest runs with the deterministic selector
+struct FirstChoiceRandom;
+impl vrp_core::rosomaxa::prelude::Random for FirstChoiceRandom {
+    fn uniform_int(&self, min: i32, _max: i32) -> i32 {
+        min
+    }
+    fn uniform_real(&self, min: f64, _max: f64) -> f64 {
+        min
+    }
+    fn is_head_not_tails(&self) -> bool {
+        true
+    }
+    fn is_hit(&self, _probability: f64) -> bool {
+        false
+    }
+    fn weighted(&self, _weights: &[usize]) -> usize {
+        0
+    }
+    fn get_rng(&self) -> vrp_core::rosomaxa::utils::RandomGen {
+        vrp_core::rosomaxa::utils::RandomGen::new_repeatable()
+    }
+}
+
+/// op "choose": InsertionResult::choose_best_result on pairs of results; a result is {"cost":[..]} or {"fail":[code, stopped, job|null]}
+fn run_choose(case: &Value) -> Value {
+    let tiny = json!({"n": 1, "dur": [0], "dist": [0]});
+    let veh = json!({"start": 0, "end": 0, "shift_start": 0, "shift_end": "inf", "cap": 1, "costs": [0, 1, 0, 0, 0]});
+    let mk_job = |id: i64| Job::Single(Arc::new(single_of(&json!({"id": id, "places": [{"loc": 0, "svc": 0, "tws": [[0, "inf"]]}], "dem": [0, 0, 0, 0]}))));
+    let world = build_world(&tiny, vec![vehicle_of(&veh, "v0")], vec![mk_job(1), mk_job(2)], "cost");
+    let ctx = new_ctx(&world);
+    let route_ctx = ctx.solution.registry.next_route().next().expect("a free vehicle");
+    let mk = |v: &Value, side: i64| -> InsertionResult {
+        if !v["cost"].is_null() {
+            let cost: Vec<f64> = i64s_of(&v["cost"]).into_iter().map(|x| x as f64).collect();
+            InsertionResult::make_success(InsertionCost::new(&cost), mk_job(side), vec![], route_ctx)
+        } else {
+            let f = v["fail"].as_array().unwrap();
+            InsertionResult::make_failure_with_code(
+                vrp_core::models::ViolationCode(i64_of(&f[0]) as i32),
+                f[1].as_bool().unwrap(),
+                if f[2].is_null() { None } else { Some(mk_job(i64_of(&f[2]))) },
+            )
+        }
+    };
+    let out: Vec<Value> = case["pairs"]
+        .as_array()
+        .unwrap()
+        .iter()
+        .map(|p| {
+            let r = InsertionResult::choose_best_result(mk(&p[0], 1), mk(&p[1], 2));
+            let side = match &r {
+                InsertionResult::Success(s) => Some(job_id(&s.job)),
+                _ => None,
+            };
+            let cost = match &r {
+                InsertionResult::Success(s) => json!(s.cost.iter().map(t_out).collect::<Vec<_>>()),
+                _ => Value::Null,
+            };
+            json!({"cost": cost, "fail": fail_of(&r), "side": side})
+        })
+        .collect();
+    json!({"chosen": out})
+}
+
+/// the inner search of op "decompose": returns the solution it is given
+struct IdentitySearch;
+impl vrp_core::rosomaxa::prelude::HeuristicSearchOperator for IdentitySearch {
+    type Context = vrp_core::solver::RefinementContext;
+    type Objective = vrp_core::models::GoalContext;
+    type Solution = InsertionContext;
+    fn search(&self, _: &Self::Context, solution: &Self::Solution) -> Self::Solution {
+        solution.deep_copy()
+    }
+}
+
+fn dump_routes(ctx: &InsertionContext) -> Value {
+    let routes: Vec<Value> = ctx
+        .solution
+        .routes
+        .iter()
+        .map(|r| {
+            let jobs: Vec<String> = r.route().tour.all_activities().filter_map(|a| a.retrieve_job()).map(|j| job_id(&j)).collect();
+            json!({"vehicle": r.route().actor.vehicle.dimens.get_vehicle_id().cloned(), "jobs": jobs})
+        })
+        .collect();
+    let mut rest: Vec<String> = ctx.solution.unassigned.keys().map(job_id).collect();
+    rest.extend(ctx.solution.required.iter().map(job_id));
+    rest.extend(ctx.solution.ignored.iter().map(job_id));
+    json!({"routes": routes, "unassigned": rest})
+}
+
+/// op "decompose": the real DecomposeSearch (create_multiple_insertion_contexts, refine_decomposed, merge_best) around an
+/// identity inner search, on a solution with many tours, under explicit pool layouts.  With an identity inner search the
+/// result must hold every tour of the input exactly once.
+fn run_decompose(case: &Value) -> Value {
+    use vrp_core::rosomaxa::evolution::TelemetryMode;
+    use vrp_core::rosomaxa::prelude::{Environment, HeuristicSearchOperator};
+    use vrp_core::rosomaxa::utils::{DefaultRandom, Parallelism};
+    use vrp_core::solver::search::DecomposeSearch;
+    use vrp_core::solver::{create_elitism_population, RefinementContext};
+    let tours = case["tours"].as_array().unwrap();
+    let singles: Vec<Vec<Arc<Single>>> =
+        tours.iter().map(|o| o["tour"].as_array().unwrap().iter().map(|a| Arc::new(single_of_act(a))).collect()).collect();
+    let extra: Vec<Job> = case["unassigned"].as_array().unwrap().iter().map(|j| Job::Single(Arc::new(single_of(j)))).collect();
+    let mut jobs: Vec<Job> = singles.iter().flatten().map(|s| Job::Single(s.clone())).collect();
+    jobs.extend(extra.iter().cloned());
+    let vehicles: Vec<Vehicle> = tours.iter().enumerate().map(|(k, o)| vehicle_of(&o["veh"], &format!("v{k}"))).collect();
+    let world = build_world(case, vehicles, jobs, "unassigned+tours+cost");
+    let mut out = vec![];
+    for l in case["layouts"].as_array().unwrap() {
+        let parallelism = if l.is_null() { Parallelism::default() } else { Parallelism::new(usize_of(&l[0]), usize_of(&l[1])) };
+        let env = Arc::new(Environment::new(Arc::new(DefaultRandom::default()), None, parallelism, Arc::new(|_: &str| {}), false));
+        let mut ctx = InsertionContext::new_empty(world.problem.clone(), env.clone());
+        for (k, o) in tours.iter().enumerate() {
+            let acts: Vec<(Value, Arc<Single>)> = o["tour"].as_array().unwrap().iter().cloned().zip(singles[k].iter().cloned()).collect();
+            add_route(&mut ctx, k, &acts);
+        }
+        for j in extra.iter() {
+            ctx.solution.unassigned.insert(j.clone(), UnassignmentInfo::Unknown);
+        }
+        world.problem.goal.accept_solution_state(&mut ctx.solution);
+        let rctx = RefinementContext::new(
+            world.problem.clone(),
+            Box::new(create_elitism_population(world.problem.goal.clone(), env.clone())),
+            TelemetryMode::None,
+            env.clone(),
+        );
+        let range = (usize_of(&case["range"][0]), usize_of(&case["range"][1]));
+        let op = DecomposeSearch::new(Arc::new(IdentitySearch), range, usize_of(&case["repeat"]), 100_000);
+        let before = dump_routes(&ctx);
+        let res = op.search(&rctx, &ctx);
+        out.push(json!({"layout": l, "before": before, "after": dump_routes(&res)}));
+    }
+    json!({"decomposed": out})
+}
+
 fn run_case(case: &Value) -> Value {
-    if case["op"].as_str() == Some("layouts") {
-        return run_layouts(case);
+    match case["op"].as_str() {
+        Some("layouts") => return run_layouts(case),
+        Some("choose") => return run_choose(case),
+        Some("decompose") => return run_decompose(case),
+        _ => {}
     }
     SHIFT.store(if case["cost_shift"].is_null() { 0 } else { i64_of(&case["cost_shift"]) }, std::sync::atomic::Ordering::Relaxed);
     let routes_desc = case["routes"].as_array().unwrap();
@@ -97,6 +252,14 @@ fn run_case(case: &Value) -> Value {
         add_route(&mut ctx, k, &acts);
     }
     ctx.solution.required = cands.clone();
+    // optional: candidates that already sit in `unassigned` with a concrete code (the evaluator's first shortcut)
+    let has_codes = case["unassigned_codes"].as_array().map_or(false, |a| !a.is_empty());
+    if let Some(list) = case["unassigned_codes"].as_array() {
+        for e in list {
+            let job = cands[usize_of(&e[0])].clone();
+            ctx.solution.unassigned.insert(job, UnassignmentInfo::Simple(vrp_core::models::ViolationCode(i64_of(&e[1]) as i32)));
+        }
+    }
     world.problem.goal.accept_solution_state(&mut ctx.solution);
 
     let goal = &world.problem.goal;
@@ -109,13 +272,16 @@ fn run_case(case: &Value) -> Value {
         let eval_ctx = EvaluationContext { goal, job, leg_selection: &leg, result_selector: &selector };
         eval_job_insertion_in_route(&ctx, &eval_ctx, route_ctx, InsertionPosition::Any, acc)
     };
-    // per item: full evaluation and route-level estimate
+    // per item: full evaluation, route-level estimate, kind of the pair and the failure fields
     let per_item: Vec<Value> = items
         .iter()
         .map(|it| {
+            let viol = goal.evaluate(&MoveContext::route(&ctx.solution, it.0, it.1));
             let full = step(InsertionResult::make_failure(), it);
             let rc: Vec<Value> = unshift(goal.estimate(&MoveContext::route(&ctx.solution, it.0, it.1)).iter().collect());
-            json!({"full": cost_of(&full), "rc": rc})
+            let skipped = matches!(&full, InsertionResult::Failure(f) if f.job.is_none());
+            let kind = if skipped { "skip" } else if viol.is_some() { "viol" } else { "eval" };
+            json!({"full": cost_of(&full), "rc": rc, "kind": kind, "fail": fail_of(&full)})
         })
         .collect();
     let fold = |xs: &[(&RouteContext, &Job)]| xs.iter().fold(InsertionResult::make_failure(), |acc, it| step(acc, it));
@@ -123,6 +289,54 @@ fn run_case(case: &Value) -> Value {
     let splits: Vec<Value> = (0..=items.len())
         .map(|k| cost_of(&InsertionResult::choose_best_result(fold(&items[..k]), fold(&items[k..]))))
         .collect();
+    // the schedules Model/Reduce2.v :: run_grid evaluates: leaves of k pairs, reduced left- or right-nested
+    let reduce_chunks = |k: usize, left: bool| -> InsertionResult {
+        let mut leaves: Vec<InsertionResult> = items.chunks(k.max(1)).map(|c| fold(c)).collect();
+        if leaves.is_empty() {
+            return fold(&[]);
+        }
+        if left {
+            let mut it = leaves.into_iter();
+            let first = it.next().unwrap();
+            it.fold(first, InsertionResult::choose_best_result)
+        } else {
+            let mut acc = leaves.pop().unwrap();
+            while let Some(l) = leaves.pop() {
+                acc = InsertionResult::choose_best_result(l, acc);
+            }
+            acc
+        }
+    };
+    let nj = job_refs.len();
+    let trees: Vec<Value> = [(items.len().max(1), true), (1, true), (1, false), (2, true), (3, false), (nj.max(1), true)]
+        .iter()
+        .map(|(k, left)| {
+            let r = reduce_chunks(*k, *left);
+            json!({"cost": cost_of(&r), "fail": fail_of(&r)})
+        })
+        .collect();
+    // twin of the pub(crate) evaluate_and_collect_all: both branches, real step + real rosomaxa::utils::parallel_collect
+    let dump_vec = |v: &Vec<InsertionResult>| -> Vec<Value> { v.iter().map(|r| json!({"cost": cost_of(r), "fail": fail_of(r)})).collect() };
+    let reduce_vec = |v: Vec<InsertionResult>| -> Value {
+        let r = v.into_iter().fold(InsertionResult::make_failure(), InsertionResult::choose_best_result);
+        json!({"cost": cost_of(&r), "fail": fail_of(&r)})
+    };
+    let mut collected = vec![];
+    for n in [1usize, 3] {
+        let pool = rayon::ThreadPoolBuilder::new().num_threads(n).build().unwrap();
+        let by_route: Vec<InsertionResult> = pool.install(|| {
+            vrp_core::rosomaxa::utils::parallel_collect(&routes, |route_ctx| {
+                job_refs.iter().fold(InsertionResult::make_failure(), |acc, job| step(acc, &(*route_ctx, *job)))
+            })
+        });
+        let by_job: Vec<InsertionResult> = pool.install(|| {
+            vrp_core::rosomaxa::utils::parallel_collect(&job_refs, |job| {
+                routes.iter().fold(InsertionResult::make_failure(), |acc, route_ctx| step(acc, &(*route_ctx, *job)))
+            })
+        });
+        collected.push(json!({"threads": n, "by_route": dump_vec(&by_route), "by_job": dump_vec(&by_job),
+                              "red_route": reduce_vec(by_route), "red_job": reduce_vec(by_job)}));
+    }
     let evaluator = PositionInsertionEvaluator::default();
     let mut par = vec![];
     for p in case["pools"].as_array().unwrap() {
@@ -130,10 +344,56 @@ fn run_case(case: &Value) -> Value {
         let pool = rayon::ThreadPoolBuilder::new().num_threads(n).build().unwrap();
         for _ in 0..usize_of(&case["reps"]) {
             let r = pool.install(|| evaluator.evaluate_all(&ctx, &job_refs, &routes, &leg, &selector));
-            par.push(json!({"threads": n, "cost": cost_of(&r)}));
+            par.push(json!({"threads": n, "cost": cost_of(&r), "fail": fail_of(&r)}));
         }
     }
-    json!({"items": per_item, "seq": seq, "splits": splits, "par": par, "n_routes": routes.len()})
+    // the REAL evaluate_and_collect_all, reached through the public RecreateWithSkipBest (skip index fixed to 2, deterministic
+    // selector) and the insertion observer hook: which candidate goes into which tour at the first insertion
+    // (not with two or more free vehicles: the registry offers a RANDOM one of equal-typed free vehicles per call)
+    let skip_best = if has_codes || free_desc.len() > 1 {
+        Value::Null
+    } else {
+        use std::cell::RefCell;
+        use std::rc::Rc;
+        use vrp_core::rosomaxa::evolution::TelemetryMode;
+        use vrp_core::solver::search::{Recreate, RecreateWithSkipBest};
+        use vrp_core::solver::{create_elitism_population, RefinementContext};
+        let cand_ids: Vec<String> = cands.iter().map(job_id).collect();
+        let seen: Rc<RefCell<Option<Value>>> = Rc::new(RefCell::new(None));
+        let seen2 = seen.clone();
+        let ids2 = cand_ids.clone();
+        verif_hooks::set_insertion_observer(Some(Box::new(move |c: &InsertionContext| {
+            if seen2.borrow().is_some() {
+                return;
+            }
+            for r in c.solution.routes.iter() {
+                for a in r.route().tour.all_activities() {
+                    if let Some(j) = a.retrieve_job() {
+                        let id = job_id(&j);
+                        if ids2.contains(&id) {
+                            *seen2.borrow_mut() = Some(json!({"job": id, "vehicle": r.route().actor.vehicle.dimens.get_vehicle_id().cloned()}));
+                            return;
+                        }
+                    }
+                }
+            }
+        })));
+        let rctx = RefinementContext::new(
+            world.problem.clone(),
+            Box::new(create_elitism_population(world.problem.goal.clone(), ctx.environment.clone())),
+            TelemetryMode::None,
+            ctx.environment.clone(),
+        );
+        let recreate = RecreateWithSkipBest::new(2, 2, Arc::new(FirstChoiceRandom));
+        let _ = recreate.run(&rctx, ctx.deep_copy());
+        verif_hooks::set_insertion_observer(None);
+        let first = seen.borrow().clone();
+        json!({"first": first})
+    };
+    let route_ids: Vec<Value> = routes.iter().map(|r| json!(r.route().actor.vehicle.dimens.get_vehicle_id().cloned())).collect();
+    json!({"items": per_item, "seq": seq, "splits": splits, "par": par, "n_routes": routes.len(), "n_jobs": nj,
+           "n_solution_routes": ctx.solution.routes.len(), "trees": trees, "collected": collected, "skip_best": skip_best,
+           "route_ids": route_ids})
 }
 
 fn main() {
